@@ -144,30 +144,50 @@ class Fn:
             if d is not None:
                 self.defaults[p.arg] = d
         self.all_params = self.params + ([self.vararg] if self.vararg else []) + self.kwonly + ([self.kwarg] if self.kwarg else [])
-        self.locals = self.assigned_names(node) - set(self.all_params)
+        self.locals = [n for n in self.assigned_names(node) if n not in self.all_params]
 
     # ---- helpers
     @staticmethod
-    def assigned_names(fn: ast.FunctionDef) -> set[str]:
-        out: set[str] = set()
+    def assigned_names(fn: ast.FunctionDef) -> list[str]:
+        """names bound by assignment, augmented assignment or a `for` target, in the order of their first binding in
+        the source text (the order in which the translation declares them — independent of how they are spelled)"""
+        out: list[str] = []
+
+        def add(n: str):
+            if n not in out:
+                out.append(n)
 
         def tgt(t):
             if isinstance(t, ast.Name):
-                out.add(t.id)
+                add(t.id)
             elif isinstance(t, (ast.Tuple, ast.List)):
                 for e in t.elts:
                     tgt(e)
 
-        for n in ast.walk(fn):
-            if isinstance(n, ast.Assign):
-                for t in n.targets:
-                    tgt(t)
-            elif isinstance(n, (ast.AugAssign, ast.AnnAssign)):
-                tgt(n.target)
-            elif isinstance(n, ast.For):
-                tgt(n.target)
-            elif isinstance(n, (ast.ListComp, ast.GeneratorExp)):
-                pass  # comprehension variables are scoped to the comprehension
+        def visit(stmts):
+            for n in stmts:
+                if isinstance(n, ast.Assign):
+                    for t in n.targets:
+                        tgt(t)
+                elif isinstance(n, (ast.AugAssign, ast.AnnAssign)):
+                    tgt(n.target)
+                elif isinstance(n, ast.For):
+                    tgt(n.target)
+                    visit(n.body)
+                    visit(n.orelse)
+                elif isinstance(n, (ast.If, ast.While)):
+                    visit(n.body)
+                    visit(n.orelse)
+                elif isinstance(n, ast.With):
+                    visit(n.body)
+                elif isinstance(n, ast.Try):
+                    visit(n.body)
+                    for h in n.handlers:
+                        visit(h.body)
+                    visit(n.orelse)
+                    visit(n.finalbody)
+
+        visit(fn.body)
         return out
 
     def fresh(self, base: str = "t") -> str:
@@ -569,7 +589,7 @@ class Fn:
         for p in self.all_params:
             if p in self.assigned_names(self.node) or (self.spec.returns_self and p == "self"):
                 self.emit(1, f"let mut {lname(p)} := {lname(p)}")
-        for v in sorted(self.locals):
+        for v in self.locals:
             self.emit(1, f"let mut {lname(v)} : PVal := PVal.none")
         self.stmts(1, body)
         if not body or not self.terminal(body[-1]):
